@@ -46,7 +46,7 @@ def case_of(name: str, p: Proto, tags: Tuple[str, ...] = (), only: Optional[List
 # --------------------------------------------------------------------------- F_grid
 
 GRID_TYPES: List[TBase] = [TBase("bool"), TBase("byte")] + [TBase("uint", n) for n in range(1, 65)] + [TBase("int", n) for n in range(1, 65)]
-GRID_POS = ("scalar", "arr3", "arr5", "alias", "arr_of_alias", "alias_of_arr")
+GRID_POS = ("scalar", "arr3", "arr5", "alias", "arr_of_alias", "alias_of_arr", "rows")
 
 
 def grid_message(idx: int, t: TBase, off: int, pos: str, aliases: List[Alias]) -> Message:
@@ -72,6 +72,13 @@ def grid_message(idx: int, t: TBase, off: int, pos: str, aliases: List[Alias]) -
         a = Alias(f"A{idx}", TArray(t, 3))
         aliases.append(a)
         ft = TRef(a)
+    elif pos == "rows":
+        # array of an alias of an array: the row totals 8 bits where the width divides 8 (a `standard` total made of
+        # narrower elements), two elements otherwise
+        w = t.width()
+        a = Alias(f"A{idx}", TArray(t, 8 // w if 8 % w == 0 else 2))
+        aliases.append(a)
+        ft = TArray(TRef(a), 2)
     else:
         raise ValueError(pos)
     fields.append(Field(ft, "v", 2))
@@ -90,7 +97,7 @@ def grid_cells(quick: bool) -> List[Tuple[TBase, int, str]]:
                     if not keep:
                         continue
                     # quick: positions thinned for the non-boundary widths
-                    if w not in (1, 7, 8, 9, 15, 16, 17, 31, 32, 33, 63, 64) and pos in ("arr5", "arr_of_alias"):
+                    if w not in (1, 2, 4, 7, 8, 9, 15, 16, 17, 31, 32, 33, 63, 64) and pos in ("arr5", "arr_of_alias", "rows"):
                         continue
                 cells.append((t, off, pos))
     return cells
